@@ -228,7 +228,11 @@ class Replayer:
             try:
                 if op == "hash":
                     with ForcedRng(st["x"]) as fr:
-                        text = ctx.hash(PWS[st["pw"]], category=rc)
+                        if rnd.random() < .2:
+                            # naming the category's default scheme explicitly is the same request
+                            text = ctx.hash(PWS[st["pw"]], category=rc, scheme=ctx.default_scheme(category=rc))
+                        else:
+                            text = ctx.hash(PWS[st["pw"]], category=rc)
                     s, r = self.parse(text)
                     got = ["ok", {"scheme": s, "rounds": r}]
                     extra["hash"] = text
@@ -247,7 +251,11 @@ class Replayer:
                     if op == "identify":
                         got = [ctx.identify(text) or "unset"]
                     elif op == "verify":
-                        got = [str(ctx.verify(PWS[st["pw"]], text))]
+                        who = ctx.identify(text)
+                        if who and rnd.random() < .2:
+                            got = [str(ctx.verify(PWS[st["pw"]], text, scheme=who))]        # naming the identified scheme explicitly changes nothing
+                        else:
+                            got = [str(ctx.verify(PWS[st["pw"]], text))]
                     elif op == "needs_update":
                         got = [str(ctx.needs_update(text, category=rc))]
                     elif op == "verify_and_update":
